@@ -156,6 +156,15 @@ def _realise(ctx, yaw, n, exp, sc, root, delta, embs, perms) -> None:
             c2 = yaw.Catalog.from_dataframe(root / "c", dd, ra_name="ra", dec_name="dec", weight_name="w", redshift_name="z",
                                             patch_name="pid", overwrite=True, max_workers=1)
             check_meta(ctx, yaw, c2, e_num, e_sw, None, None, delta, "divide", "patch_index_column", detail)
+        if n % 4 == 2:
+            # centres given TOGETHER with a (stale, disagreeing) patch index column: documented - the column is ignored
+            dd = dref.copy()
+            pts = np.deg2rad(dd[["ra", "dec"]].to_numpy())
+            near = [min(range(3), key=lambda j: ang_dist(p, cen.data[j])) for p in pts]
+            dd["pid"] = [(k + 1) % 3 for k in near]
+            c4 = yaw.Catalog.from_dataframe(root / "d", dd, ra_name="ra", dec_name="dec", weight_name="w", redshift_name="z",
+                                            patch_centers=cen, patch_name="pid", overwrite=True, max_workers=1, chunksize=2)
+            check_meta(ctx, yaw, c4, e_num, e_sw, e_rad, cen.data.copy(), delta, "apply", "centres_and_stale_patch_column", detail)
         if n % 3 == 1:
             # a given centre that attracts no object (far side of the ring), at every position of the list: creation must
             # refuse (C09) - a catalog that comes back must still have patch i = centre i for the N given centres
